@@ -163,7 +163,7 @@ class TasteT(tools.ToolCase):
 
     def draw(self, ctx, src):
         self.m = world.gen_world(src)
-        self.damage = src.draw("damage", 0, 2)
+        self.damage = src.draw("damage", 0, 3)
         self.kw = {"binary_headers": bool(src.draw("o.h", 0, 1) == 0), "binary_shape": bool(src.draw("o.s", 0, 1) == 0),
                    "boxes_coordinates": bool(src.draw("o.c", 0, 1))}
         self.dlv = src.draw("damage.lv", 0, self.m.nlev - 1)
@@ -172,7 +172,16 @@ class TasteT(tools.ToolCase):
     def materialise(self, root):
         p = os.path.join(root, "data", "plt00100")
         disk = world.write_plotfile(self.m, p)
-        if self.damage:
+        if self.damage == 3:
+            # two defects in two different binary files of one level (the level with most files): which of them
+            # a failing validation reports must not depend on the schedule either
+            lv = max(range(self.m.nlev), key=lambda l: len({i[0] for i in disk[l]}))
+            files = sorted({i[0] for i in disk[lv]})
+            with open(files[0], "r+b") as f:
+                f.truncate(max(0, os.path.getsize(files[0]) - 8))
+            with open(files[-1], "ab") as f:
+                f.write(b"\0" * 16)
+        elif self.damage:
             info = disk[self.dlv][-1]
             if self.damage == 1:
                 with open(info[0], "r+b") as f:
@@ -194,7 +203,9 @@ class TasteT(tools.ToolCase):
                 Taster(p, verbose=0, **self.kw)
                 raised = None
             except Exception as e:
-                raised = type(e).__name__
+                # (the report names the box and file found bad: part of what the caller gets)
+                import re
+                raised = (type(e).__name__, re.sub(r"run\d+", "runK", ctx.clean(str(e))))
             return (verdict, raised)
         return run_tool(ctx, go, cwd=self.cwd(root), label=f"taste {self.kw} damage={self.damage}")
 
